@@ -3,6 +3,8 @@ from collections import namedtuple
 from ply import yacc, lex
 from ply.lex import TOKEN
 
+from mpilot.exceptions import ProgramError
+
 ProgramNode = namedtuple("ProgramNode", ("commands", "version"))
 CommandNode = namedtuple("CommandNode", ("result_name", "command", "arguments", "lineno"))
 ArgumentNode = namedtuple("ArgumentNode", ("name", "value", "lineno"))
@@ -237,6 +239,13 @@ class Parser(object):
         """
         elements : element COMMA elements
         """
+
+        if isinstance(p[3], dict):
+            # PLY swallows a SyntaxError raised inside a grammar action, so report this one as a program error
+            raise ProgramError(
+                lineno=p.lineno(2),
+                message="Problem: A list cannot mix plain values and key-value pairs.",
+            )
 
         p[0] = [p[1]] + p[3]
 
